@@ -10,10 +10,14 @@ models they contain, and -- as the JSON step -- the encoders the dispatchers rea
              the REST reply RegisterEngineReplyMsg).
 
 Three obligations
-  envelope        (solver)   `_type` / `_ns` chosen by the solver from catalogues assembled from the live namespaces
+  envelope        (concrete) `_type` / `_ns` chosen by the solver from catalogues assembled from the live namespaces
                              (every attribute name of every namespace, perturbed names, foreign modules, non-strings,
-                             missing keys) plus short symbolic strings: exactly the MessageBase subclasses defined in a
-                             protocol namespace are accepted, everything else raises ProtocolDeserializationException.
+                             missing keys) plus every short string over a 3-letter alphabet: exactly the MessageBase
+                             subclasses defined in a protocol namespace are accepted, everything else raises
+                             ProtocolDeserializationException.  Measured: an unconstrained symbolic `_ns` / `_type` cannot
+                             be kept symbolic -- deserialize formats the string into its error message (f-string) and
+                             passes it to getattr, both concretise it, and CrossHair then enumerates the string domain
+                             (36 000+ realisations, no exhaustion in 120 CPU s even for length <=3).  Hence selectors.
   class_identity  (table)    every message class: serialize -> JSON -> deserialize gives the same class (and an equal message).
   values          (concrete) CrossHair as a solver-guided generator over the declared field types; the values are
                              concretised at the pydantic-core boundary and each realised message is round-tripped.
@@ -614,15 +618,17 @@ def _shards_envelope(tier):
 
 OBLIGATIONS = [
     Obligation(
-        name="envelope", kind="crosshair", harness=harness_envelope, shards=_shards_envelope,
+        name="envelope", kind="crosshair", harness=harness_envelope, shards=_shards_envelope, decides="concrete",
         cpu_budget={"quick": 60.0, "thorough": 400.0},
         encoded=["openpectus.protocol.serialization:deserialize"],
         symbolic="selector over the `_type` catalogue (every attribute name of the namespace `_ns` names, perturbed / qualified / foreign names, "
-                 "builtins, non-strings, missing key), short symbolic strings for `_ns` and `_type`, payload bit (empty / the target's own default dump); "
+                 "builtins, non-strings, missing key), every short string over a 3-letter alphabet for `_ns` and `_type` (character selectors), payload bit (empty / the target's own default dump); "
                  "`_ns` catalogue (exact, perturbed, foreign, non-string, missing) is the shard",
         bounds={"quick": "catalogues built from the live namespaces; every string of length <=2 over 3-letter alphabets",
                 "thorough": "same catalogues; every string of length <=3"},
-        assumptions=["a name that is not an attribute of the namespace module is represented by the catalogue and by short symbolic strings "
+        assumptions=["every case is decided by a concrete run of deserialize: the strings are selector-assembled because deserialize concretises a symbolic "
+                     "`_ns`/`_type` in its error f-string and in getattr (measured: no exhaustion)",
+                     "a name that is not an attribute of the namespace module is represented by the catalogue and by the enumerated short strings "
                      "(module getattr depends on the name only through the module dict; no module-level __getattr__)",
                      "`-O` (asserts removed) is outside the claim",
                      "log statements removed at import"]),
@@ -638,7 +644,7 @@ OBLIGATIONS = [
         encoded=["openpectus.protocol.serialization:serialize", "openpectus.protocol.serialization:deserialize"],
         symbolic="per message class and top-level field: solver choices over every alternative of the declared type (union member, literal, enum member, "
                  "container size 0..2, which nested field is varied), ints symbolic in +-2**70 with regions around 0 / 2**53 / 2**63, floats from a dyadic "
-                 "grid and a catalogue of extreme values (NaN/inf only for TagValue.value), strings from a catalogue of JSON-sensitive texts and short symbolic strings; "
+                 "grid and a catalogue of extreme values (NaN/inf only for TagValue.value), strings from a catalogue of JSON-sensitive texts and enumerated short strings; "
                  "all concretised when handed to pydantic-core",
         bounds={"quick": "one varied leaf per message, other fields minimal/default; containers up to 2 elements; catalogue strings + every 1-character string over {a, \", \\, 1}",
                 "thorough": "same, every string of length 1..2 over {a, \", \\, 1}"},
@@ -649,3 +655,16 @@ OBLIGATIONS = [
                      "JSON step = the dispatcher's encoder for that class (see module docstring)",
                      "unchanged = same class, same field values with the same Python types (NaN equals NaN, -0.0 equals 0.0)"]),
 ]
+
+MANIFEST = {
+    "level": "exploration",
+    "text": "Envelope: deserialize is run on every (_ns, _type) case the solver selects from catalogues assembled from the live protocol namespaces (all attribute names, perturbed and "
+            "foreign names, builtins, non-strings, missing keys, every short string over a small alphabet): exactly MessageBase subclasses defined in a protocol namespace are accepted, "
+            "everything else raises ProtocolDeserializationException. Class identity: finite table over every message class found by introspection. Values: CrossHair as solver-guided "
+            "generator over the declared field types of every message class; values are concretised at the pydantic-core boundary and every realised message goes through "
+            "serialize -> the dispatcher's real JSON encoding -> deserialize and is compared type-strictly.",
+    "note": "Exploration, not a proof: pydantic-core and json are C code, and deserialize itself concretises a symbolic _ns/_type (error f-string, getattr), so every case is decided by a concrete run; "
+            "the solver enumerates cases and picks witnesses (one per path). One field varied at a time; containers up to 2 elements; non-finite floats only for TagValue.value. "
+            "JSON step = fastapi_websocket_rpc RpcMessage.model_dump_json + json.loads for engine/aggregator messages, json.dumps/loads for replies and registration.",
+    "technique": "solver-guided generation and selector enumeration with CrossHair + z3 over the real code, concrete decision per case, finite table for class identity, counterexample replay",
+}
